@@ -22,7 +22,8 @@ THEOREMS = ['C10_idempotent', 'C10_ascii_clean', 'C10_canonical', 'C10_idempoten
             'C10_equiv_dot_segments_partial', 'C10_equiv_escape_case_partial', 'C10_equiv_fragment_partial',
             'C10_constants_are_the_sources']
 TRUSTED = [
-    'hand-written model Model/Url.v + Model/UrlLib.v of wpull/url.py, tied by the vm_compute correspondence of this run '
+    'harness/translate/consts.py (fail-closed AST evaluator of constant definitions) -> coq/Gen/Consts.v, regenerated every run; Proofs/ConstsAgree.v proves the model\'s constants equal to it for every value',
+        'hand-written model Model/Url.v + Model/UrlLib.v of wpull/url.py, tied by the vm_compute correspondence of this run '
     '(error kind or all 14 attributes, .url, every accessor, parse_url_or_log) on generated URLs',
     'library calls that are not wpull code are function parameters of the theorems (codec, str.lower / idna / int() on non-ASCII '
     'text, IPv6Address.compressed, urllib unquote); the hypotheses about them (enc_ok, lower_ok, idna_ok, ipv6_ok, unquote_ok) are '
@@ -823,4 +824,5 @@ LEVEL_NOTE = ('The model is a pure function of the string; that the implementati
               'enc_ok for utf-8 which is proved). The encoder hypothesis excludes utf-16/32, utf-7, EBCDIC and iso-2022 codecs, for which '
               'the property is false on the real code (C10_idempotent_any_encoding_refuted; known finding with replay). The unproved '
               'spelling-equivalence classes are carried by the implementation-side metamorphic check only.')
-TECHNIQUE = 'Coq proofs over an executable Gallina transcription of url.py with library oracles as section hypotheses; vm_compute correspondence'
+TECHNIQUE = ('Coq proofs over an executable Gallina transcription of url.py with library oracles as section hypotheses; constant tables '
+             'regenerated from the source (translator) and proved equal to the model\'s; vm_compute correspondence')
